@@ -155,6 +155,9 @@ func firstLine(s string) string {
 func sigOf(uid string, s step) string {
 	var b bytes.Buffer
 	fmt.Fprintf(&b, "%s:%s:n%d:", uid, s.Op, s.N)
+	if s.Op == "verifyproof" && len(s.Proof) != s.N {
+		fmt.Fprintf(&b, "w%d:", len(s.Proof))
+	}
 	if s.Op == "verifypart" {
 		fmt.Fprintf(&b, "i%d:%d%s", s.Idx, s.Part.Who, s.Part.What)
 	}
@@ -213,10 +216,9 @@ func TestReplay(t *testing.T) {
 			var wire []byte
 			switch s.Op {
 			case "verifyproof":
-				if len(s.Proof) != s.N {
-					return fmt.Errorf("case %d: proof has %d slots for n=%d", idx, len(s.Proof), s.N)
-				}
-				wp := wireProof{Signatures: make([]*crypto.Signature, s.N)}
+				// the proof has the width the case says: fewer, as many or more slots than the context has validators
+				width := len(s.Proof)
+				wp := wireProof{Signatures: make([]*crypto.Signature, width)}
 				for i, a := range s.Proof {
 					if a.What == "none" {
 						continue
@@ -232,11 +234,15 @@ func TestReplay(t *testing.T) {
 				}
 				wire = codec.MustMarshalToBytes(&wp)
 				var pf module.BTPProof
-				if crnd.Intn(2) == 0 {
+				if width != s.N || crnd.Intn(2) == 0 {
+					// a serialized proof as a peer sends it (the only way to get a width other than n)
 					how = "NewProofFromBytes"
 					var err error
 					if pf, err = w.pc.NewProofFromBytes(wire); err != nil {
 						return fmt.Errorf("case %d: proof does not decode: %v", idx, err)
+					}
+					if pf.ValidatorCount() != width {
+						return fmt.Errorf("case %d: decoded proof has %d slots, built %d", idx, pf.ValidatorCount(), width)
 					}
 				} else {
 					// assemble from parts in a random order, as the consensus engine does from precommits
@@ -294,6 +300,11 @@ func TestReplay(t *testing.T) {
 				violation(id, "btp"+obj+":panic", fmt.Sprintf("%s %s panics instead of rejecting n=%d %s: %s", uid, s.Op, s.N,
 					sigOf(uid, s), firstLine(panicked)), det)
 			case verr == nil && s.Res != "ok":
+				if s.Op == "verifyproof" && len(s.Proof) < s.N {
+					obj = "proof:narrow" // fewer slots than validators
+				} else if s.Op == "verifyproof" && len(s.Proof) > s.N {
+					obj = "proof:wide"
+				}
 				violation(id, "btp"+obj+":accepted:"+s.Res, fmt.Sprintf("%s proof context accepts a %s the spec rejects (%s): %s",
 					uid, obj, s.Res, sigOf(uid, s)), det)
 			case verr != nil && s.Res == "ok":
